@@ -48,6 +48,11 @@ def run(rep, tier, seed, b):
         ops = H.random_history(rng, smiles=smiles)
         fin = final_ops(rng, smiles)
         items.append((ops, fin, ['0', str(rng.randint(1, 9999))] if tier == 'quick' else ['0', '1', str(rng.randint(2, 9999))]))
+    hyper = [x for x in smiles if any(g in x for g in ('S(=O)', '(=O)=O', 'P(=O)', 'N(=O)', 'Cl(=O)'))][:60 if tier == 'quick' else 400]
+    for x in hyper:
+        ops = [['set', ['name', 'hypervalent']], ['enc', x, True, False], ['dec', '[C][S][=Branch1][C][=O][=Branch1][C][=O][C]', False, False],
+               ['set', ['name', rng.choice(['octet_rule', 'default'])]]]
+        items.append((ops, [['dec', '[C][S][=Branch1][C][=O][=Branch1][C][=O][C]', False, False], ['enc', x, True, False], ['enc', x, True, False]], ['0', '7']))
     res = core.pmap('p_c11', 'work', items, chunk=25)
     for (ops, fin, seeds), (runs, mo, ref) in zip(items, res):
         rep.evaluations += 1
